@@ -181,7 +181,8 @@ def run(db: DB, rep: Report) -> None:
               "get_payload label: producer %s, source '%s' + tensor" % (sorted(prod_t), src_lits[:1]),
               "the trace= label Header.make_get_payload emits (%s) and the label "
               "Metrics.get_fiber_trace returns for ranks outside the loop order (%s + tensor) differ" %
-              (sorted(prod_t), src_lits))
+              (sorted(prod_t), src_lits),
+              decided=bool(prod_t) and bool(src_lits))
     n_pref = 0
     for f in (gt, Mx.methods["get_collected_tensor_info"]):
         for n in walk_no_nested(f.node):
@@ -228,7 +229,8 @@ def run(db: DB, rep: Report) -> None:
     rep.check("T2", bool(prod_eager) and cons_eager == prod_eager, db.loc(gt.node), gt.short, "eager-schema",
               "eager labels: produced %s, consumed %s" % (sorted(prod_eager), sorted(cons_eager)),
               "eager trace labels registered during collection %s differ from those the dump consumes %s" %
-              (sorted(prod_eager), sorted(cons_eager)))
+              (sorted(prod_eager), sorted(cons_eager)),
+              decided=bool(prod_eager) and bool(cons_eager))
     # the tracker set bound in make_loop_header and read in trace_tree
     tracker_b = {show(t) for r in hm.names.values() if r["role"] == "binder" and r["func"] is not None
                  and r["func"].short == "Collector.make_loop_header" for t in r["tmpls"]}
@@ -237,13 +239,15 @@ def run(db: DB, rep: Report) -> None:
     rep.check("T2", bool(tracker_b) and tracker_r == tracker_b, db.loc(C.methods["make_loop_header"].node),
               "Collector.make_loop_header", "eager-tracker",
               "tracker set bound as %s, read as %s" % (sorted(tracker_b), sorted(tracker_r)),
-              "the eager tracker set is bound as %s but read as %s" % (sorted(tracker_b), sorted(tracker_r)))
+              "the eager tracker set is bound as %s but read as %s" % (sorted(tracker_b), sorted(tracker_r)),
+              decided=bool(tracker_b) and bool(tracker_r))
     # the read tracker is the read trace label (same template)
     reads = {x for x in prod_eager if x.endswith("_read")}
     rep.check("T2", tracker_b == reads, db.loc(C.methods["trace_tree"].node), "Collector.trace_tree",
               "tracker==read-label", "tracker name equals the eager read label %s" % sorted(reads),
               "tracker set name %s and eager read label %s no longer share one schema" %
-              (sorted(tracker_b), sorted(reads)))
+              (sorted(tracker_b), sorted(reads)),
+              decided=bool(tracker_b) and bool(reads))
     both = {x.rsplit("_", 1)[1] for x in prod_eager}
     rep.check("T2", both == {"read", "write"}, db.loc(sc.node), sc.short, "eager-suffixes",
               "eager labels carry exactly the suffixes read/write",
@@ -287,7 +291,8 @@ def run(db: DB, rep: Report) -> None:
     st = {show(t) for r in seqs for t in r["tmpls"]}
     rep.check("T3", st == {"□-□-iter.csv"}, db.loc(C.methods["__build_sequencers"].node),
               "Collector.__build_sequencers", "sequencer-file", "sequencer consumes %s" % sorted(st),
-              "the sequencer model consumes %s instead of <prefix>-<rank>-iter.csv" % sorted(st))
+              "the sequencer model consumes %s instead of <prefix>-<rank>-iter.csv" % sorted(st),
+              decided=bool(st))
 
     # ---- T4 --------------------------------------------------------------------
     rep.rule("T4", "collection is opened and closed exactly once per Einsum", 4)
@@ -305,13 +310,17 @@ def run(db: DB, rep: Report) -> None:
         cs = [n for n in walk_no_nested(tn.node) if isinstance(n, ast.Call) and isinstance(n.func, ast.Attribute)
               and n.func.attr == meth and norm(n.func.value) == "self.collector"]
         ok = len(cs) == 1
+        wrong_arm = False
         if ok:
             g = [norm(a) for t, pol in paths.guards(cs[0], stop=tn.node) for a, p in paths.conjuncts(t, pol) if p]
             ok = any(x.endswith(".get_type() == '%s'" % lit) for x in g) and \
                 any(x.startswith("isinstance(") and x.endswith(", MetricsNode)") for x in g)
+            wrong_arm = any(".get_type() == '" in x and not x.endswith("== '%s'" % lit) for x in g) or \
+                any(x.startswith("isinstance(") and not x.endswith(", MetricsNode)") for x in g)
         rep.check("T4", ok, db.loc(cs[0]) if cs else db.loc(tn.node), tn.short, "arm:" + meth,
                   "collector.%s() is called only from the MetricsNode('%s') arm" % (meth, lit),
-                  "collector.%s() is not called from exactly the MetricsNode('%s') arm" % (meth, lit))
+                  "collector.%s() is not called from exactly the MetricsNode('%s') arm" % (meth, lit),
+              decided=wrong_arm or len(cs) > 1)
     bl = db.func("teaal.ir.flow_graph.FlowGraph.__build_loop_nest")
     gs = {}
     for lit in ("Start", "End"):
@@ -332,7 +341,8 @@ def run(db: DB, rep: Report) -> None:
               "Collector.create_component", "intersector-name",
               "intersector variable: created %s, fed %s, queried %s" % (sorted(create), sorted(feed), sorted(query)),
               "the intersector model variable is created as %s, fed as %s and queried as %s" %
-              (sorted(create), sorted(feed), sorted(query)))
+              (sorted(create), sorted(feed), sorted(query)),
+              decided=bool(create) and bool(feed) and bool(query))
 
     def comp_loop(f: FuncInfo) -> Tuple[str, str]:
         outer = [n for n in walk_no_nested(f.node) if isinstance(n, ast.For) and
@@ -356,7 +366,8 @@ def run(db: DB, rep: Report) -> None:
     rep.check("T5", ok, db.loc(C.methods["__build_components"].node), "Collector.__build_components",
               "intersector-source", "create / query / coiterator map iterate %s x %s" % l_create,
               "the loops that create intersector models %s, query them %s and map ranks to coiterators %s "
-              "do not range over the same components and bindings" % (l_create, l_query, l_map))
+              "do not range over the same components and bindings" % (l_create, l_query, l_map),
+              decided="?" not in (l_create + l_query + l_map))
     mlf = C.methods["make_loop_footer"]
     ok = any(isinstance(n, ast.Call) and isinstance(n.func, ast.Attribute) and n.func.attr == "consume_traces"
              and len(n.args) == 2 and "get_name" in norm(n.args[0]) and
@@ -483,7 +494,8 @@ def run(db: DB, rep: Report) -> None:
                   "%s uses the sequencer's rank as bound (%s)" % (fname, used),
                   "%s plugs %s into the trace name instead of the rank exactly as the sequencer binding "
                   "gives it; registration and consumption would name different ranks for a partitioned "
-                  "rank" % (g.short, used))
+                  "rank" % (g.short, used),
+              decided=used != "?")
 
     # ---- T8 --------------------------------------------------------------------
     rep.rule("T8", "expanded bindings are appended to both views", 2)
@@ -496,16 +508,19 @@ def run(db: DB, rep: Report) -> None:
         by_block.setdefault(id(blk), []).append(a)
     if len(by_block) < 2:
         raise AnalysisError("fewer than 2 append blocks in expand_eager")
+    views = ["self.bindings[einsum]", "self.tensor_bindings[einsum][tensor]"]
     for blk_id, cs in by_block.items():
-        recvs = sorted(norm(c.func.value) for c in cs)
+        recvs = sorted(paths.flow_text(c.func.value, c, ee.node) for c in cs)
         args = {norm(c.args[0]) for c in cs}
-        ok = recvs == ["self.bindings[einsum]", "self.tensor_bindings[einsum][tensor]"] and len(args) == 1
+        ok = recvs == views and len(args) == 1
+        known = all(r in views for r in recvs)
         rep.check("T8", ok, db.loc(cs[0]), ee.short, "dual-append@%d" % cs[0].lineno if False else
                   "dual-append:" + "|".join(recvs),
                   "expanded binding appended to %s" % recvs,
                   "an expanded binding is appended to %s with argument(s) %s; the dump's view "
                   "(self.bindings) and the traffic-path view (self.tensor_bindings) must receive the "
-                  "same object on the same path" % (recvs, sorted(args)))
+                  "same object on the same path" % (recvs, sorted(args)),
+              decided=known)
 
 
 def _stmt(n: ast.AST) -> ast.stmt:
